@@ -65,7 +65,7 @@ type Input struct {
 	Fails       []int  `json:"fails"`   // hook invocations (0-based, counted over the whole operation) that return an error
 	Sets        []int  `json:"sets"`    // hook invocations at which the hook calls tx.Statement.SetColumn("Val", 1000+k)
 	Pay         int64  `json:"pay"`     // update payload for Val (update/updates/update_column(s))
-	PayVia      string `json:"pay_via"` // map_db (key "val") | map_field (key "Val") | struct
+	PayVia      string `json:"pay_via"` // map_db (key "val") | map_field (key "Val") | struct (T{...}) | struct_ptr (&T{...})
 	SetKey      string `json:"set_key"` // name the hooks pass to SetColumn: field ("Val") | db ("val")
 	Limit       int64  `json:"limit"`   // find: rows with tag <= Limit are selected
 	// FailKind: what a failing hook returns: "" = errors.New-style "E<k>"; otherwise "E<k>: %w" wrapping one
@@ -472,10 +472,13 @@ func (w *World) Run(in Input) (o Obs) {
 		if in.PayVia == "map_field" {
 			payKey = "Val"
 		}
-		if in.PayVia == "struct" {
+		if in.PayVia == "struct" || in.PayVia == "struct_ptr" {
 			pv := reflect.New(ti.T)
 			pv.Elem().FieldByName("Val").SetInt(in.Pay)
-			payload = pv.Elem().Interface()
+			payload = pv.Elem().Interface() // Updates(T{...})
+			if in.PayVia == "struct_ptr" {
+				payload = pv.Interface() // Updates(&T{...}): the payload is itself a pointer to a value of the model's type
+			}
 		} else {
 			payload = map[string]interface{}{payKey: in.Pay}
 		}
